@@ -7,6 +7,7 @@ import (
 	"go/constant"
 	"go/token"
 	"go/types"
+	"math/big"
 	"strings"
 
 	"golang.org/x/tools/go/ssa"
@@ -155,7 +156,7 @@ func checkC05(c *Ctx) {
 					// too short: 8*len - 48 < sum  <=>  sum + 47 - 8*len >= 0
 					if len(cons) == 1 {
 						want := GT(LinConst(or.sum(t.sec)), A.LenOf(fn.Params[0]).Scale(8).AddConst(-2*or.LeaderBits))
-						if cons[0].L.Equal(want.L) {
+						if cons[0].L.Equal(want.L) || sameIntegerBound(cons[0].L, want.L) {
 							kind = "too-short"
 						}
 					}
@@ -332,4 +333,27 @@ func checkBaseDisplay(c *Ctx, rule, label string, str *ssa.Function, withHeight 
 		}
 	}
 	c.Check(rawInts["AntennaRefX"] && rawInts["AntennaRefY"] && rawInts["AntennaRefZ"], rule, label+":debug-raw-integers", str.Pos(), "the debug form prints the raw integers", "the debug form does not print the raw coordinate integers")
+}
+
+// sameIntegerBound: a and b are constraints `k*x + c >= 0` over one and the same integer quantity x with
+// k < 0, and they admit the same integers (x <= floor(c/-k)): `len < 25` and `8*len - 48 < 152`.
+func sameIntegerBound(a, b *Lin) bool {
+	bound := func(l *Lin) (string, *big.Int, bool) {
+		if len(l.T) != 1 {
+			return "", nil, false
+		}
+		for sym, k := range l.T {
+			if k.Sign() >= 0 {
+				return "", nil, false
+			}
+			// x <= c / -k
+			q := new(big.Rat).Quo(l.C, new(big.Rat).Neg(k))
+			fl := new(big.Int).Div(q.Num(), q.Denom()) // Div rounds toward negative infinity for positive denominators (Euclidean)
+			return sym, fl, true
+		}
+		return "", nil, false
+	}
+	sa, fa, oka := bound(a)
+	sb, fb, okb := bound(b)
+	return oka && okb && sa == sb && fa.Cmp(fb) == 0
 }
